@@ -664,4 +664,7 @@ def run(ctx):
     rule_canonical(ctx)
     rule_comparisons(ctx)
     import c06
+    import c11
+
+    ctx.include("C16.7", "prerequisite shared with C11.2: the modulus the operations are given is the curve's prime (the three literals equal the reference primes; constants are built from the selected curve)", c11.rule_primes)
     ctx.include("C16.5", "the constant evaluator reaches these operations with (left, right, prime) in order, takes fallible results only on Ok and has no shortcut that bypasses them (shared with C06.1)", c06.rule_operator_table)
